@@ -333,6 +333,7 @@ type c11ConnPair struct {
 	ini, rsp       *Conn
 	iniErr, rspErr error
 	pi, pr         *pipe.Conn
+	rspResults     int
 }
 
 // c11ConnHandshake runs Dial against Listener.doHandshake over an in-memory
@@ -352,7 +353,7 @@ func c11ConnHandshake(k c11Keys, target *btcec.PublicKey,
 		localStatic:   c11ECDHKey(k.rs),
 		shouldAccept:  DisabledBanClosure,
 		handshakeSema: make(chan struct{}, 1),
-		conns:         make(chan maybeConn, 1),
+		conns:         make(chan maybeConn, 8),
 		quit:          make(chan struct{}),
 	}
 
@@ -378,10 +379,22 @@ func c11ConnHandshake(k c11Keys, target *btcec.PublicKey,
 	}()
 	wg.Wait()
 
-	select {
-	case mc := <-l.conns:
-		res.rsp, res.rspErr = mc.conn, mc.err
-	default:
+	// The listener reports exactly one outcome per connection. Should it
+	// ever report several, any produced connection counts as "accepted".
+	n := 0
+	for done := false; !done; {
+		select {
+		case mc := <-l.conns:
+			if n == 0 || (mc.conn != nil && res.rsp == nil) {
+				res.rsp, res.rspErr = mc.conn, mc.err
+			}
+			n++
+		default:
+			done = true
+		}
+	}
+	res.rspResults = n
+	if n == 0 {
 		res.rspErr = fmt.Errorf("c11: listener produced no result")
 	}
 
@@ -431,7 +444,17 @@ func TestVerifC11ConnHandshake(t *testing.T) {
 		}
 		labels = append(labels, fmt.Sprintf("conn:fault:%d", fault))
 
+		// The stream may arrive in small segments at either end.
+		segI, segR := 0, 0
+		if s.Int("segmented", 0, 1) == 1 {
+			segI = s.Int("segI", 1, 20)
+			segR = s.Int("segR", 1, 20)
+			labels = append(labels, "conn:segmented_reads")
+		}
+
 		res := c11ConnHandshake(k, target, func(pi, pr *pipe.Conn) {
+			pi.SetReadChunk(segI)
+			pr.SetReadChunk(segR)
 			switch fault {
 			case fXorI:
 				pi.XorOut(off, mask)
@@ -474,6 +497,10 @@ func TestVerifC11ConnHandshake(t *testing.T) {
 				"(target %s, fault %d at %d mask %#x)", res.rspErr, wantRsp,
 				tname, fault, off, mask)
 		}
+		if res.rspResults != 1 {
+			rt.Fatalf("listener reported %d outcomes for one connection",
+				res.rspResults)
+		}
 		if !wantRsp && res.rsp != nil {
 			rt.Fatalf("listener returned a connection with an error")
 		}
@@ -513,11 +540,12 @@ func TestVerifC11ConnHandshake(t *testing.T) {
 		}
 
 		nontrivial := tname != "real" || fault != fNone
-		st.Case(vstats.FP(k.fp(), tname, fault, off, int(mask)), nontrivial,
+		st.Case(vstats.FP(k.fp(), tname, fault, off, int(mask), segI, segR),
+			nontrivial,
 			labels, map[string]any{
 				"test": "conn_handshake", "target": tname, "fault": fault,
 				"off": off, "mask": mask,
-				"dialErr": fmt.Sprint(res.iniErr),
+				"dialErr":   fmt.Sprint(res.iniErr),
 				"acceptErr": fmt.Sprint(res.rspErr),
 			})
 	})
